@@ -228,6 +228,14 @@ impl<Data> IoLoopInner for LoopInner<'_, Data> {
         if let Ok(slot) = self.sources.borrow_mut().get_mut(token.inner) {
             slot.source = None;
         }
+        // Nothing else ever removes the fd from the poller: without this it would stay
+        // registered after `into_inner()` (or a drop that keeps the fd open) and could not be
+        // adapted or inserted again.
+        let fd = dispatcher.borrow().fd;
+        let _ = self
+            .poll
+            .borrow_mut()
+            .unregister(unsafe { BorrowedFd::borrow_raw(fd) });
     }
 }
 
